@@ -391,11 +391,8 @@ impl<'a> CrlfLines<'a> {
                 return Some(left);
             }
         }
-        if self.slice.is_empty() {
-            None
-        } else {
-            Some(mem::take(&mut self.slice))
-        }
+        // a trailing fragment without CRLF is not a line yet: more bytes may follow in the next frame
+        None
     }
 
     /// split by pattern and return previous bytes
